@@ -229,6 +229,8 @@ OPS = [
   ("spline_start_beyond_detach", "*", op_value("Pair", IS_SPLINE_EXP, lambda v, rng: v.replace("spline(", "spline(>=1.0 "))),
   # ---- trans()
   ("trans_one_argument", "*", op_value("Pair", IS_TRANS, lambda v, rng: v.split(",")[0] + ")")),
+  ("trans_shift_given_ranges", "*", op_value("Pair", IS_TRANS, lambda v, rng: re.sub(r",\s*as\.constant\s+(\S+?)\)$", lambda m_: rng.choice(
+      [", >=3 as.constant %s)", ", as.constant %s >2 as.constant 5.0)", ", >3 as.constant %s >4 as.buck 1 2 3)", ", >1.5 as.constant %s)"]) % m_.group(1), v))),
   ("trans_three_arguments", "*", op_value("Pair", IS_TRANS, lambda v, rng: v[:-1] + ", as.constant 1.0)")),
   ("trans_second_not_constant", "*", op_value("Pair", IS_TRANS, lambda v, rng: re.sub(r"as\.constant \S+\)$", "as.polynomial 1.0)", v))),
   ("trans_constant_without_value", "*", op_value("Pair", IS_TRANS, lambda v, rng: re.sub(r"as\.constant \S+\)$", "as.constant)", v))),
